@@ -194,9 +194,9 @@ CLAIMED = {
             'interval functions are enclosures; every real kernel called with an explicit directed mode '
             'honours it at its final rounding on every path (found: loggamma negated after rounding, so '
             'iv.loggamma was inverted for x < 1.46 - repaired); the cos/sin outward perturbation has the '
-            'right shape; every x + eps shortcut of the real kernels perturbs towards the sign of the neglected term (found: mpf_log near 1 - repaired); no directed kernel rounds a weakly guarded undirected intermediate (found: mpf_atan2 - repaired); interval functions outside the audited endpoint-level set remain compositions of interval operations; conversions round each endpoint outward; a packed interval is never used after one of its unpacked endpoints was recomputed (C-R9); + - * / on every combination of zero / infinite / signed endpoint classes return endpoint classes that enclose the exact range, never nan (C-R16, class interpretation).  NOT decided: choice of corner / '
-            'monotonicity region (one seeded change of that kind is not detected) and the accuracy of the '
-            'transcendental kernels inside their guard bits.',
+            'right shape; every x + eps shortcut of the real kernels perturbs towards the sign of the neglected term (found: mpf_log near 1 - repaired); no directed kernel rounds a weakly guarded undirected intermediate (found: mpf_atan2 - repaired); interval functions outside the audited endpoint-level set remain compositions of interval operations; conversions round each endpoint outward; a packed interval is never used after one of its unpacked endpoints was recomputed (C-R9); + - * / on every combination of zero / infinite / signed endpoint classes return endpoint classes that enclose the exact range, never nan (C-R16, class interpretation); no endpoint is taken straight from a directed transcendental kernel: the kernel value goes through the outward helper, whose body is verified (C-R14, C-R19; seven genuine defects of this kind repaired).  NOT decided: choice of corner / '
+            'monotonicity region beyond the turning-point brackets (C-R17), and the accuracy of the '
+            'transcendental kernels inside the 2**10-unit allowance of the outward helper.',
             'Trusts the monotonicity table (sa/iv_dir.py), the reasoned operand exemptions '
             '(tables.C_OPERAND_EXEMPT) and kernel accuracy before the final directed rounding.',
             'DESIGN.md section 2, Engine C'),
@@ -215,7 +215,8 @@ CLAIMED = {
             'rectangle) its kernel takes (C-R15, sa/shape.py: found mpci_gamma handing the rectangle to mpi_gamma and '
             'conjugate using mpf_neg on an interval, both repaired); every rectangle function that reaches a real interval '
             'function with unwidened transcendental endpoints (rule C-R14 of C14) inherits that finding (C-R14t: ten '
-            'known findings, each with a failing input).  NOT decided: corner selection inside the '
+            'genuine defects with failing inputs, repaired together with the seven of C14 by the outward helper); '
+            'kernels called with a directed mode by rectangle functions honour it (C-R5).  NOT decided: corner selection inside the '
             'audited endpoint-level functions, the excluded region of gamma, value-level tightenings.',
             'Trusts the monotonicity table; the real interval functions are trusted only where C14 has no finding.',
             'DESIGN.md section 2, Engine C'),
